@@ -58,15 +58,13 @@ def abs_dt(d):
         raise Skip("not a datetime: %r" % (d,))
     off = d.utcoffset()
     if off is not None:
-        if off.microseconds:
-            raise Skip("sub-second offset")
-        off = off.days * 86400 + off.seconds
+        off = off // US                      # microseconds
     return (d.year, d.month, d.day, d.hour, d.minute, d.second, d.microsecond, off)
 
 
 def mk_dt(t):
     y, m, d, h, mi, s, us, off = t
-    return datetime(y, m, d, h, mi, s, us, tzinfo=None if off is None else timezone(timedelta(seconds=off)))
+    return datetime(y, m, d, h, mi, s, us, tzinfo=None if off is None else timezone(timedelta(microseconds=off)))
 
 
 def c_dt(t):
@@ -190,7 +188,7 @@ def oracle(M, kind, arg):
             return bool(RE_DATE.fullmatch(e)) and D.Date.decode(e) == datetime(*arg)
         if kind == "dt":
             v = mk_dt(arg); e = D.DateTime.encode(v); r = D.DateTime.decode(e)
-            lex = bool(RE_DT.fullmatch(e)) or (arg[7] is not None and arg[7] % 60 != 0)   # a seconds offset has no xsd form
+            lex = bool(RE_DT.fullmatch(e)) or (arg[7] is not None and arg[7] % 60000000 != 0)   # an offset with seconds has no xsd form
             return lex and r == v and r.utcoffset() == v.utcoffset()
         if kind == "rgb":
             try:
@@ -234,10 +232,12 @@ def klass(kind, arg):
     if kind == "hexdec":
         return "hex2rgb/" + ("non-ascii" if any(ord(c) > 127 for c in arg) else "valid" if RE_COL.fullmatch(arg) else "malformed")
     if kind == "dtdec":
-        return "%s.decode/%s" % (arg[0], "valid" if RE_DT.fullmatch(arg[1]) or RE_DATE.fullmatch(arg[1]) else "other")
+        return "%s.decode/%s" % (arg[0], "valid" if RE_DT.fullmatch(arg[1]) or RE_DATE.fullmatch(arg[1]) else "outside-xsd")
     if kind == "dt":
         off = arg[7]
-        return "dt/" + ("naive" if off is None else "utc" if off == 0 else "offset-min" if off % 60 == 0 else "offset-sec") + ("-micro" if arg[6] else "")
+        if off is not None and 0 < abs(off) < 10 ** 6:
+            return "dt/offset-below-one-second"
+        return "dt/" + ("naive" if off is None else "utc" if off == 0 else "offset-min" if off % 60000000 == 0 else "offset-sec" if off % 1000000 == 0 else "offset-microsec") + ("-micro" if arg[6] else "")
     if kind in UNIT_KINDS:
         return unit_klass(kind, arg)
     return kind
@@ -406,6 +406,13 @@ def gen_inputs(tier, rng, css):
     for t in ["", "nosuchcolour", "re d", " red", "grey0", "#FF0000"]: add("css", t)
     for t in HEXA_HAND: add("hexa", t)
     for name, _v in (css[:20] if q else css): add("hexa", rng.choice(["", " ", "\t"]) + name + rng.choice(["", " ", "\n"]))
+    # offsets were drawn in seconds: the cases carry microseconds; add offsets with a sub-second part (datetime allows them)
+    inp = [(k, a[:7] + (None if a[7] is None else a[7] * 10 ** 6,)) if k in ("dt", "dateofdt") else (k, a) for k, a in inp]
+    for off in [1, -1, 500000, 19800 * 10 ** 6 + 1, -(86399 * 10 ** 6 + 999999), 86399 * 10 ** 6 + 999999, 60 * 10 ** 6 + 7, -3600 * 10 ** 6 - 250000]:
+        add("dt", (2024, 1, 31, 10, 0, 0, 0, off)); add("dt", (1, 1, 1, 0, 0, 0, 999999, off))
+    for _ in range(20 if q else 2000):
+        add("dt", (rng.randint(1, 9999), rng.randint(1, 12), rng.randint(1, 28), rng.randint(0, 23), rng.randint(0, 59), rng.randint(0, 59), rng.choice([0, 1, 999999]),
+                   rng.randint(-86399999999, 86399999999)))
     inp += gen_unit_inputs(tier, rng)
     return inp
 
@@ -513,12 +520,10 @@ def run(tier, seed, replay=None):
         lenient_fromisoformat_accepts=n_len,
         layers={LAYER[c].split(":")[0]: sum(1 for v in hard.values() if v == c) for c in LAYER},
         exhaustive=False)
-    if n_len:
-        print("NOTE: %d strings outside xsd:date/dateTime are accepted by datetime.fromisoformat with their ISO 8601 reading (not an alarm)" % n_len)
     return common.finish(PROP, tier, seed, proofs, coverage, violations, known_seen, t0,
                          assumptions=["durations with a sub-second part are generated below 2^21 hours only (bound of dur_float_exact_us); whole-second durations over the whole timedelta range",
-                                      "time-zone offsets in whole seconds", "colour names and white space: ASCII",
-                                      "strings outside xsd:date/dateTime that datetime.fromisoformat accepts with their ISO 8601 reading are counted, not alarmed"])
+                                      "colour names and white space: ASCII",
+                                      "Date.decode / DateTime.decode accept the same strings (date or dateTime); an offset with a seconds part is accepted though xsd has no form for it (datetime.isoformat writes it)"])
 
 
 if __name__ == "__main__":
